@@ -27,7 +27,7 @@ package fp
 //@   ensures !result.IsDefined() ==> IterPos(r) == IterLen(r)
 //@   ensures forall j int :: 0 <= j && j < IterPos(r)-1 ==> !p(verifspec.IterAt[T](r, j))
 //@   ensures !result.IsDefined() ==> (forall j int :: 0 <= j && j < IterLen(r) ==> !p(verifspec.IterAt[T](r, j)))
-//@   loop 0 invariant IterPos(r) < IterLen(r) && (forall j int :: 0 <= j && j < IterPos(r) ==> !p(verifspec.IterAt[T](r, j)))
+//@   loop 0 invariant IterPos(r) < IterLen(r) && (forall j int :: IterPosAtEntry(r) <= j && j < IterPos(r) ==> !p(verifspec.IterAt[T](r, j)))
 //@   loop 0 decreases IterLen(r) - IterPos(r)
 //
 //@ func (Iterator).Exists(r, p) result
@@ -162,7 +162,7 @@ package fp
 //@   prop C12 C20
 //@   ensures IterPos(r) == 0
 //@   tag construction-pulls-nothing
-//@   loop 0 invariant !found && !first.IsDefined() && IterPos(r) < IterLen(r) && (forall j int :: 0 <= j && j < IterPos(r) ==> p(verifspec.IterAt[T](r, j)))
+//@   loop 0 invariant !found && !first.IsDefined() && IterPos(r) < IterLen(r) && (forall j int :: IterPosAtEntry(r) <= j && j < IterPos(r) ==> p(verifspec.IterAt[T](r, j)))
 //@   loop 0 decreases IterLen(r) - IterPos(r)
 //
 //@ ghost
@@ -174,7 +174,6 @@ package fp
 //@ 	p0 := verifspec.IterPos(r)
 //@ 	n := verifspec.IterLen(r)
 //@ 	verifspec.Assume(!first.IsDefined() || (found && p0 >= 1 && verifspec.Eq(first.Get(), verifspec.IterAt[T](r, p0-1))))
-//@ 	verifspec.Assume(found || verifspec.Forall(func(j int) bool { return !(0 <= j && j < p0) || p(verifspec.IterAt[T](r, j)) }))
 //@ 	h1 := it.HasNext()
 //@ 	p1 := verifspec.IterPos(r)
 //@ 	first1 := verifspec.Cell[Option[T]](it, "first")
@@ -199,10 +198,10 @@ package fp
 //@ 		if h1 && !(found1 && first1.IsDefined() && p1 >= 1 && verifspec.Eq(first1.Get(), verifspec.IterAt[T](r, p1-1)) && !p(first1.Get())) {
 //@ 			return false
 //@ 		}
-//@ 		if h1 && !verifspec.Forall(func(j int) bool { return !(0 <= j && j < p1-1) || p(verifspec.IterAt[T](r, j)) }) {
+//@ 		if h1 && !verifspec.Forall(func(j int) bool { return !(p0 <= j && j < p1-1) || p(verifspec.IterAt[T](r, j)) }) {
 //@ 			return false
 //@ 		}
-//@ 		if !h1 && !(p1 == n && !found1 && !first1.IsDefined() && verifspec.Forall(func(j int) bool { return !(0 <= j && j < n) || p(verifspec.IterAt[T](r, j)) })) {
+//@ 		if !h1 && !(p1 == n && !found1 && !first1.IsDefined() && verifspec.Forall(func(j int) bool { return !(p0 <= j && j < n) || p(verifspec.IterAt[T](r, j)) })) {
 //@ 			return false
 //@ 		}
 //@ 	}
@@ -220,4 +219,406 @@ package fp
 //@ lemma iterDropWhile[T any](r Iterator[T], p func(T) bool, next bool)
 //@   prop C12 C20
 //@   ensures iterDropWhileStep(r, p, next)
+//
+// Filter: abstract position a = pos-1 when a match is cached in fv, pos
+// otherwise; the abstract iterator yields the E[j], j >= a, with p(E[j]).
+// mode 0: HasNext; mode 1: Next (functional part, protocol); mode 2: Next
+// pulls at most one element beyond the one it returns (laziness clause of C12).
+//
+//@ ghost
+//@ func iterFilterInv[T any](r Iterator[T], it Iterator[T], p func(T) bool) bool {
+//@ 	first := verifspec.Cell[bool](it, "first")
+//@ 	fv := verifspec.Cell[Option[T]](it, "fv")
+//@ 	pos := verifspec.IterPos(r)
+//@ 	if first {
+//@ 		return true
+//@ 	}
+//@ 	if fv.IsDefined() {
+//@ 		return pos >= 1 && verifspec.Eq(fv.Get(), verifspec.IterAt[T](r, pos-1)) && p(fv.Get())
+//@ 	}
+//@ 	return pos == verifspec.IterLen(r)
+//@ }
+//@ func iterFilterStep[T any](r Iterator[T], p func(T) bool, mode int) bool {
+//@ 	it := r.Filter(p)
+//@ 	verifspec.Havoc(it)
+//@ 	verifspec.Assume(iterFilterInv(r, it, p))
+//@ 	p0 := verifspec.IterPos(r)
+//@ 	n := verifspec.IterLen(r)
+//@ 	a := p0
+//@ 	if !verifspec.Cell[bool](it, "first") && verifspec.Cell[Option[T]](it, "fv").IsDefined() {
+//@ 		a = p0 - 1
+//@ 	}
+//@ 	h1 := it.HasNext()
+//@ 	p1 := verifspec.IterPos(r)
+//@ 	fv1 := verifspec.Cell[Option[T]](it, "fv")
+//@ 	inv1 := iterFilterInv(r, it, p)
+//@ 	first1 := verifspec.Cell[bool](it, "first")
+//@ 	h2 := it.HasNext()
+//@ 	if mode == 0 {
+//@ 		if h2 != h1 || verifspec.IterPos(r) != p1 || !inv1 || first1 || h1 != fv1.IsDefined() {
+//@ 			return false
+//@ 		}
+//@ 		if h1 {
+//@ 			return a <= p1-1 && p1-1 < n && verifspec.Forall(func(j int) bool { return !(a <= j && j < p1-1) || !p(verifspec.IterAt[T](r, j)) })
+//@ 		}
+//@ 		return verifspec.Forall(func(j int) bool { return !(a <= j && j < n) || !p(verifspec.IterAt[T](r, j)) })
+//@ 	}
+//@ 	if !h1 {
+//@ 		return Panics(it.Next()) && verifspec.IterPos(r) == p1
+//@ 	}
+//@ 	v := it.Next()
+//@ 	if mode == 1 {
+//@ 		return Eq(v, verifspec.IterAt[T](r, p1-1)) && iterFilterInv(r, it, p) && !verifspec.Cell[bool](it, "first") && verifspec.IterPos(r) >= p1
+//@ 	}
+//@ 	return verifspec.IterPos(r) <= p1+1
+//@ }
+//@ end
+//
+//@ lemma iterFilter[T any](r Iterator[T], p func(T) bool)
+//@   prop C12 C20
+//@   ensures iterFilterStep(r, p, 0)
+//@   tag hasNext
+//@   ensures iterFilterStep(r, p, 1)
+//@   tag next
+//@   ensures iterFilterStep(r, p, 2)
+//@   tag next-bounded-lookahead
+//
+// Map / TapEach: stateless pass-through of the source.
+//
+//@ ghost
+//@ func iterMapStep[T any](r Iterator[T], mf func(T) T, next bool) bool {
+//@ 	it := r.Map(mf)
+//@ 	verifspec.Havoc(it)
+//@ 	p0 := verifspec.IterPos(r)
+//@ 	want := p0 < verifspec.IterLen(r)
+//@ 	if it.HasNext() != want || it.HasNext() != want || verifspec.IterPos(r) != p0 {
+//@ 		return false
+//@ 	}
+//@ 	if !next {
+//@ 		return true
+//@ 	}
+//@ 	if !want {
+//@ 		return Panics(it.Next()) && verifspec.IterPos(r) == p0
+//@ 	}
+//@ 	return EqT(it.Next(), mf(verifspec.IterAt[T](r, p0))) && verifspec.IterPos(r) == p0+1
+//@ }
+//@ func iterTapEachStep[T any](r Iterator[T], f func(T), next bool) bool {
+//@ 	it := r.TapEach(f)
+//@ 	verifspec.Havoc(it)
+//@ 	p0 := verifspec.IterPos(r)
+//@ 	want := p0 < verifspec.IterLen(r)
+//@ 	if it.HasNext() != want || it.HasNext() != want || verifspec.IterPos(r) != p0 {
+//@ 		return false
+//@ 	}
+//@ 	if !next {
+//@ 		return true
+//@ 	}
+//@ 	if !want {
+//@ 		return Panics(it.Next()) && verifspec.IterPos(r) == p0
+//@ 	}
+//@ 	e := verifspec.IterAt[T](r, p0)
+//@ 	return EqT(it.Next(), func(x T) T { f(x); return x }(e)) && verifspec.IterPos(r) == p0+1
+//@ }
+//@ end
+//
+//@ lemma iterMap[T any](r Iterator[T], mf func(T) T, next bool)
+//@   prop C12 C20
+//@   ensures iterMapStep(r, mf, next)
+//
+//@ lemma iterTapEach[T any](r Iterator[T], f func(T), next bool)
+//@   prop C12 C20
+//@   ensures iterTapEachStep(r, f, next)
+//
+// Drop is eager: it pulls min(n, len) elements while it is being constructed
+// and returns the source itself.  The clause `lazy-construction` is the
+// laziness requirement of C12 (no demand yet => nothing pulled).
+//
+//@ func (Iterator).Drop(r, n) result
+//@   prop C12 C20
+//@   ensures n <= 0 ==> IterPos(r) == 0
+//@   ensures 0 <= n && n <= IterLen(r) ==> IterPos(r) == n
+//@   ensures n > IterLen(r) ==> IterPos(r) == IterLen(r)
+//@   ensures IterLen(result) == IterLen(r) && IterPos(result) == IterPos(r) && (forall j int :: Eq(verifspec.IterAt[T](result, j), verifspec.IterAt[T](r, j)))
+//@   tag result-is-source
+//@   ensures IterPos(r) == 0
+//@   tag lazy-construction
+//@   loop 0 invariant 0 <= i && i < n && IterPos(r) == i && i < IterLen(r)
+//@   loop 0 decreases n - i
+//
+//@ func (Iterator).Foreach(r, p)
+//@   prop C12
+//@   ensures IterPos(r) == IterLen(r)
+//@   loop 0 invariant IterPos(r) < IterLen(r)
+//@   loop 0 decreases IterLen(r) - IterPos(r)
+//
+//@ func (Iterator).IsEmpty(r) result
+//@   prop C12 C20
+//@   ensures result == (IterLen(r) == 0) && IterPos(r) == 0
+//
+//@ func (Iterator).NonEmpty(r) result
+//@   prop C12 C20
+//@   ensures result == (IterLen(r) > 0) && IterPos(r) == 0
+//
+//@ func (Iterator).All(r) result
+//@   prop C12 C20
+//@   ensures IterPos(r) == 0
+//@   loop 0 invariant IterPos(r) < IterLen(r) && (forall j int :: IterPosAtEntry(r) <= j && j < IterPos(r) ==> f(verifspec.IterAt[T](r, j)))
+//@   loop 0 decreases IterLen(r) - IterPos(r)
+//
+//@ ghost
+//@ func iterAllOK[T any](r Iterator[T], y func(T) bool) bool {
+//@ 	r.All()(y)
+//@ 	pos := verifspec.IterPos(r)
+//@ 	n := verifspec.IterLen(r)
+//@ 	if pos < n && !(pos >= 1 && !y(verifspec.IterAt[T](r, pos-1))) {
+//@ 		return false
+//@ 	}
+//@ 	if pos > n {
+//@ 		return false
+//@ 	}
+//@ 	return forall j int :: 0 <= j && j < pos-1 ==> y(verifspec.IterAt[T](r, j))
+//@ }
+//@ end
+//
+//@ lemma iterAll[T any](r Iterator[T], y func(T) bool)
+//@   prop C12 C20
+//@   ensures iterAllOK(r, y)
+//
+// Base constructors: the "source" is a slice / an Option; coupling invariant
+// 0 <= idx <= len(s), abstract rest = s[idx:].
+//
+//@ ghost
+//@ func iterOfSeqStep[T any](s []T, next bool) bool {
+//@ 	it := IteratorOfSeq(s)
+//@ 	verifspec.Havoc(it)
+//@ 	idx := verifspec.Cell[int](it, "idx")
+//@ 	verifspec.Assume(0 <= idx && idx <= len(s))
+//@ 	want := idx < len(s)
+//@ 	if it.HasNext() != want || it.HasNext() != want || verifspec.Cell[int](it, "idx") != idx {
+//@ 		return false
+//@ 	}
+//@ 	if !next {
+//@ 		return Unchanged()
+//@ 	}
+//@ 	if !want {
+//@ 		return Panics(it.Next()) && verifspec.Cell[int](it, "idx") == idx
+//@ 	}
+//@ 	v := it.Next()
+//@ 	return Eq(v, s[idx]) && verifspec.Cell[int](it, "idx") == idx+1 && Unchanged()
+//@ }
+//@ func iterOfOptionStep[T any](o Option[T], next bool) bool {
+//@ 	it := IteratorOfOption(o)
+//@ 	verifspec.Havoc(it)
+//@ 	first := verifspec.Cell[bool](it, "first")
+//@ 	want := first && o.IsDefined()
+//@ 	if it.HasNext() != want || it.HasNext() != want || verifspec.Cell[bool](it, "first") != first {
+//@ 		return false
+//@ 	}
+//@ 	if !next {
+//@ 		return true
+//@ 	}
+//@ 	if !want {
+//@ 		return Panics(it.Next()) && verifspec.Cell[bool](it, "first") == first
+//@ 	}
+//@ 	v := it.Next()
+//@ 	return Eq(v, o.Get()) && !verifspec.Cell[bool](it, "first")
+//@ }
+//@ func iterInitOK[T any](r Iterator[T], s []T, o Option[T], n int, p func(T) bool, mf func(T) T, f func(T)) bool {
+//@ 	t := r.Take(n)
+//@ 	tw := r.TakeWhile(p)
+//@ 	dw := r.DropWhile(p)
+//@ 	fl := r.Filter(p)
+//@ 	fn := r.FilterNot(p)
+//@ 	m := r.Map(mf)
+//@ 	te := r.TapEach(f)
+//@ 	os := IteratorOfSeq(s)
+//@ 	oo := IteratorOfOption(o)
+//@ 	if verifspec.IterPos(r) != 0 || m.hasNext == nil || te.hasNext == nil {
+//@ 		return false
+//@ 	}
+//@ 	if verifspec.Cell[int](t, "i") != 0 || verifspec.Cell[int](os, "idx") != 0 || !verifspec.Cell[bool](oo, "first") {
+//@ 		return false
+//@ 	}
+//@ 	if verifspec.Cell[Option[T]](tw, "fv").IsDefined() || verifspec.Cell[bool](tw, "breaking") {
+//@ 		return false
+//@ 	}
+//@ 	if verifspec.Cell[Option[T]](dw, "first").IsDefined() || verifspec.Cell[bool](dw, "found") {
+//@ 		return false
+//@ 	}
+//@ 	return verifspec.Cell[bool](fl, "first") && verifspec.Cell[bool](fn, "first") && iterFilterInv(r, fl, p) && Unchanged()
+//@ }
+//@ end
+//
+//@ lemma iterOfSeq[T any](s []T, next bool)
+//@   prop C12 C20 C04
+//@   ensures iterOfSeqStep(s, next)
+//
+//@ lemma iterOfOption[T any](o Option[T], next bool)
+//@   prop C12 C20
+//@   ensures iterOfOptionStep(o, next)
+//
+//@ lemma iterInit[T any](r Iterator[T], s []T, o Option[T], n int, p func(T) bool, mf func(T) T, f func(T))
+//@   prop C12 C20 C04
+//@   ensures iterInitOK(r, s, o, n, p, mf, f)
+//
+// Concat (two sources).  The captured state is (currentItr, remainItr,
+// currentNextChecked); its reachable shapes are A = (Some(r), [tail]),
+// B = (Some(tail), []), C = (None, _), each with currentNextChecked = false
+// (U) or true (K, only directly after a true HasNext).  The states are reached
+// by running the real closures; the source positions are havocked.
+//   mode 0: shape A/U at arbitrary positions of r and tail
+//   mode 1: shape B/U at an arbitrary position of tail (r exhausted)
+//
+//@ ghost
+//@ func iterWrap[T any](r Iterator[T]) Iterator[T] {
+//@ 	return MakeIterator(func() bool { return r.HasNext() }, func() T { return r.Next() })
+//@ }
+//@ func iterConcatStep[T any](r Iterator[T], tail Iterator[T], mode int, next bool) bool {
+//@ 	it := iterWrap(r).Concat(iterWrap(tail))
+//@ 	c0 := verifspec.IterPos(r) == 0 && verifspec.IterPos(tail) == 0
+//@ 	verifspec.Havoc(r, tail)
+//@ 	lr := verifspec.IterLen(r)
+//@ 	lt := verifspec.IterLen(tail)
+//@ 	if mode == 1 {
+//@ 		verifspec.Assume(verifspec.IterPos(r) == lr && verifspec.IterPos(tail) < lt)
+//@ 		it.Next()
+//@ 		verifspec.Havoc(tail)
+//@ 	}
+//@ 	pr := verifspec.IterPos(r)
+//@ 	pt := verifspec.IterPos(tail)
+//@ 	want := pr < lr || pt < lt
+//@ 	if mode == 1 {
+//@ 		want = pt < lt
+//@ 	}
+//@ 	h1 := it.HasNext()
+//@ 	chk1 := verifspec.Cell[bool](it, "currentNextChecked")
+//@ 	cur1 := verifspec.Cell[Option[Iterator[T]]](it, "currentItr")
+//@ 	rem1 := verifspec.Cell[[]Iterator[T]](it, "remainItr")
+//@ 	h2 := it.HasNext()
+//@ 	if !c0 || h1 != want || h2 != want || verifspec.IterPos(r) != pr || verifspec.IterPos(tail) != pt {
+//@ 		return false
+//@ 	}
+//@ 	if chk1 != want || verifspec.Cell[bool](it, "currentNextChecked") != chk1 || !verifspec.Same(verifspec.Cell[Option[Iterator[T]]](it, "currentItr"), cur1) || !verifspec.Same(verifspec.Cell[[]Iterator[T]](it, "remainItr"), rem1) {
+//@ 		return false
+//@ 	}
+//@ 	if !next {
+//@ 		return true
+//@ 	}
+//@ 	if !want {
+//@ 		return Panics(it.Next()) && verifspec.IterPos(r) == pr && verifspec.IterPos(tail) == pt && !cur1.IsDefined()
+//@ 	}
+//@ 	v := it.Next()
+//@ 	if verifspec.Cell[bool](it, "currentNextChecked") {
+//@ 		return false
+//@ 	}
+//@ 	if mode == 0 && pr < lr {
+//@ 		return Eq(v, verifspec.IterAt[T](r, pr)) && verifspec.IterPos(r) == pr+1 && verifspec.IterPos(tail) == pt
+//@ 	}
+//@ 	return Eq(v, verifspec.IterAt[T](tail, pt)) && verifspec.IterPos(r) == pr && verifspec.IterPos(tail) == pt+1
+//@ }
+//@ func iterAppendedStep[T any](r Iterator[T], e T, mode int) bool {
+//@ 	it := iterWrap(r).Appended(e)
+//@ 	c0 := verifspec.IterPos(r) == 0
+//@ 	verifspec.Havoc(r)
+//@ 	lr := verifspec.IterLen(r)
+//@ 	pr := verifspec.IterPos(r)
+//@ 	if !c0 || !it.HasNext() || !it.HasNext() || verifspec.IterPos(r) != pr {
+//@ 		return false
+//@ 	}
+//@ 	v := it.Next()
+//@ 	if pr < lr {
+//@ 		return Eq(v, verifspec.IterAt[T](r, pr)) && verifspec.IterPos(r) == pr+1 && it.HasNext()
+//@ 	}
+//@ 	if !verifspec.Eq(verifspec.W[T](v), verifspec.W[T](e)) || verifspec.IterPos(r) != pr || it.HasNext() || it.HasNext() {
+//@ 		return false
+//@ 	}
+//@ 	return Panics(it.Next())
+//@ }
+//@ end
+//
+//@ lemma iterConcat[T any](r Iterator[T], tail Iterator[T], next bool)
+//@   prop C12 C20
+//@   ensures iterConcatStep(r, tail, 0, next)
+//@   tag first-source
+//@   ensures iterConcatStep(r, tail, 1, next)
+//@   tag second-source
+//
+//@ lemma iterAppended[T any](r Iterator[T], e T)
+//@   prop C12 C20
+//@   ensures iterAppendedStep(r, e, 0)
+//
+// FlatMap.  The loop of hasNext skips the elements whose image is empty.
+// Step lemma over an unbounded outer source r; the images are either empty or
+// (a view of) one inner source, chosen by an arbitrary predicate q, so that the
+// inner iterator has observable, unbounded state as well.
+//   mode 0: current = None          (freshly constructed shape)
+//   mode 1: current = Some(inner)   (reached by a real Next), arbitrary positions
+//
+//@ func (Iterator).FlatMap(r, mf) result
+//@   prop C12 C20
+//@   ensures IterPos(r) == 0
+//@   tag construction-pulls-nothing
+//@   loop 0 invariant IterPos(r) < IterLen(r) && (forall j int :: IterPosAtEntry(r) <= j && j < IterPos(r) ==> !mf(verifspec.IterAt[T](r, j)).HasNext())
+//@   loop 0 decreases IterLen(r) - IterPos(r)
+//
+//@ ghost
+//@ func iterFlatMapStep[T any](r Iterator[T], inner Iterator[T], q func(T) bool, mode int, next bool) bool {
+//@ 	mf := func(t T) Iterator[T] {
+//@ 		if q(t) {
+//@ 			return iterWrap(inner)
+//@ 		}
+//@ 		return Iterator[T]{}
+//@ 	}
+//@ 	it := r.FlatMap(mf)
+//@ 	c0 := verifspec.IterPos(r) == 0 && verifspec.IterPos(inner) == 0
+//@ 	verifspec.Havoc(r, inner)
+//@ 	lr := verifspec.IterLen(r)
+//@ 	li := verifspec.IterLen(inner)
+//@ 	if mode == 1 {
+//@ 		verifspec.Assume(verifspec.IterPos(r) < lr && q(verifspec.IterAt[T](r, verifspec.IterPos(r))) && verifspec.IterPos(inner) < li)
+//@ 		it.Next()
+//@ 		verifspec.Havoc(r, inner)
+//@ 	}
+//@ 	pr := verifspec.IterPos(r)
+//@ 	pi := verifspec.IterPos(inner)
+//@ 	h1 := it.HasNext()
+//@ 	pr1 := verifspec.IterPos(r)
+//@ 	pi1 := verifspec.IterPos(inner)
+//@ 	h2 := it.HasNext()
+//@ 	if !c0 || h2 != h1 || verifspec.IterPos(r) != pr1 || verifspec.IterPos(inner) != pi1 || pi1 != pi {
+//@ 		return false
+//@ 	}
+//@ 	if mode == 1 && pi < li {
+//@ 		if !h1 || pr1 != pr {
+//@ 			return false
+//@ 		}
+//@ 	} else if pi >= li {
+//@ 		if h1 || pr1 != lr {
+//@ 			return false
+//@ 		}
+//@ 	} else {
+//@ 		if h1 && !(pr1 >= pr+1 && q(verifspec.IterAt[T](r, pr1-1)) && verifspec.Forall(func(j int) bool { return !(pr <= j && j < pr1-1) || !q(verifspec.IterAt[T](r, j)) })) {
+//@ 			return false
+//@ 		}
+//@ 		if !h1 && !(pr1 == lr && verifspec.Forall(func(j int) bool { return !(pr <= j && j < lr) || !q(verifspec.IterAt[T](r, j)) })) {
+//@ 			return false
+//@ 		}
+//@ 	}
+//@ 	if !next {
+//@ 		return true
+//@ 	}
+//@ 	if !h1 {
+//@ 		return Panics(it.Next()) && verifspec.IterPos(r) == pr1 && verifspec.IterPos(inner) == pi
+//@ 	}
+//@ 	v := it.Next()
+//@ 	return Eq(v, verifspec.IterAt[T](inner, pi)) && verifspec.IterPos(inner) == pi+1 && verifspec.IterPos(r) == pr1
+//@ }
+//@ end
+//
+//@ lemma iterFlatMap[T any](r Iterator[T], inner Iterator[T], q func(T) bool, next bool)
+//@   prop C12 C20
+//@   ensures iterFlatMapStep(r, inner, q, 0, next)
+//@   tag current-none
+//@   ensures iterFlatMapStep(r, inner, q, 1, next)
+//@   tag current-some
 //
